@@ -33,6 +33,9 @@ enum Row {
     /// like AfterSame, then the receiver sees rejected continuation packets (intermediate and end fragments of an
     /// unknown fragment id, as left over from a PDU whose first fragment was lost) before the packet under test
     AfterSameThenStrays,
+    /// THIS label sent, then ANOTHER label sent through encap_ext (one optional extension), as a complete packet or as
+    /// the first fragment of a 12-byte PDU: both ends now remember the other label
+    AfterSameThenExtOther { frag: bool },
 }
 
 struct Case<'a> {
@@ -67,6 +70,26 @@ fn run_case(rep: &Report, acc: &mut Acc, c: &Case) {
             let s1 = do_decap(&mut rx, &crate::refm::Desc::inter(77, &[0xD1, 0xD2]).print());
             let s2 = do_decap(&mut rx, &crate::refm::Desc::end(78, &[0xD3], 0x0102_0304).print());
             steps.push(format!("encap(1-byte pdu, label {}) -> {:?}; decap; stray intermediate (id 77) -> {}; stray end (id 78) -> {}", c.l.short(), o, s1.class(), s2.class()));
+        }
+        Row::AfterSameThenExtOther { frag } => {
+            let other = if c.l == L6B { L6A } else { L6B };
+            let st = c.storage.max(12);
+            rx = RxS::new(2, st, &[st, st, st]).build(DefaultCrc {}, TableMgr::none());
+            let mut scratch = [0u8; 64];
+            let o = do_encap(&mut enc, &[0x42], 0, 0x0800, c.l, &mut scratch);
+            let n = o.len().unwrap_or(0);
+            if let DecapOut::Completed { buf, .. } = do_decap(&mut rx, &scratch[..(n).min(scratch.len())]) {
+                let _ = rx.provision_storage(buf.into_boxed_slice());
+            }
+            let big = [0x55u8; 12];
+            let o2 = if frag { do_encap_ext(&mut enc, &big, 9, 0x0800, other, &mut scratch[..17], &[(0x0101, vec![])]) } else { do_encap_ext(&mut enc, &[0x43], 0, 0x0800, other, &mut scratch, &[(0x0101, vec![])]) };
+            let n2 = o2.len().unwrap_or(0);
+            let d2 = do_decap(&mut rx, &scratch[..(n2).min(scratch.len())]);
+            let d2c = d2.class();
+            if let DecapOut::Completed { buf, .. } = d2 {
+                let _ = rx.provision_storage(buf.into_boxed_slice());
+            }
+            steps.push(format!("encap(1-byte pdu, label {}) -> {:?}; decap; encap_ext({}, label {}, extension 0x0101) -> {:?}; decap -> {}", c.l.short(), o, if frag { "12-byte pdu, 17-byte buffer" } else { "1-byte pdu" }, other.short(), o2, d2c));
         }
         Row::AfterSame | Row::AfterSameOff => {
             let mut scratch = [0u8; 32];
@@ -274,7 +297,7 @@ fn run_case(rep: &Report, acc: &mut Acc, c: &Case) {
 
 pub fn run(tier: Tier) -> i32 {
     let rep = Report::new("C01", tier);
-    rep.set_rule("lattice: label kind x row (re-use on/off, after the same label with re-use on/off, after another label followed by failed encap_ext/encap calls with this label, after a complete packet with this label interleaved inside another PDU's fragment train, after 1 + k packets with this label under a limit of m consecutive re-use labels for (m,k) in {(1,1),(2,1),(2,2),(1,2)}, after this label, re-use off, another label or broadcast, re-use on again, after this label followed by rejected continuation packets of unknown ids on the receiver side) x PDU length (every length 0..=4100) x buffer length relative to the exact packet size and beyond 4097 x protocol type x storage size >= PDU x content pattern, all contents for lengths 0..=2 (0..=1 in quick); each cell = real encap + real decap of exactly the reported bytes; distinct = (status, label kind, row, regime)");
+    rep.set_rule("lattice: label kind x row (re-use on/off, after the same label with re-use on/off, after another label followed by failed encap_ext/encap calls with this label, after a complete packet with this label interleaved inside another PDU's fragment train, after 1 + k packets with this label under a limit of m consecutive re-use labels for (m,k) in {(1,1),(2,1),(2,2),(1,2)}, after this label, re-use off, another label or broadcast, re-use on again, after this label followed by rejected continuation packets of unknown ids on the receiver side, after this label followed by another label sent through encap_ext as a complete packet or as a first fragment) x PDU length (every length 0..=4100) x buffer length relative to the exact packet size and beyond 4097 x protocol type x storage size >= PDU x content pattern, all contents for lengths 0..=2 (0..=1 in quick); each cell = real encap + real decap of exactly the reported bytes; distinct = (status, label kind, row, regime)");
     rep.assume("payload contents beyond 2 bytes are represented by four patterns (position tag, zeros, ones, second tag)");
     let labels = [L6A, L3A, Lbl::Bcast, L6B, L3B, L3Z];
     let ps: Vec<usize> = (0..=4100).collect();
@@ -286,7 +309,7 @@ pub fn run(tier: Tier) -> i32 {
             return;
         }
         let mut acc = Acc::default();
-        let rows: Vec<Row> = if l.is_addr() { vec![Row::Plain(true), Row::Plain(false), Row::AfterSame, Row::AfterSameOff, Row::AfterOtherThenFailed, Row::AfterInterleavedTrain, Row::AfterRejectedForStorage, Row::AfterSameWithMax { max: 1, sent: 1 }, Row::AfterSameWithMax { max: 2, sent: 1 }, Row::AfterSameWithMax { max: 2, sent: 2 }, Row::AfterSameWithMax { max: 1, sent: 2 }, Row::AfterOffOtherOn { bcast: false, max: 0 }, Row::AfterOffOtherOn { bcast: true, max: 0 }, Row::AfterOffOtherOn { bcast: false, max: 4 }, Row::AfterSameThenStrays] } else { vec![Row::Plain(true), Row::Plain(false)] };
+        let rows: Vec<Row> = if l.is_addr() { vec![Row::Plain(true), Row::Plain(false), Row::AfterSame, Row::AfterSameOff, Row::AfterOtherThenFailed, Row::AfterInterleavedTrain, Row::AfterRejectedForStorage, Row::AfterSameWithMax { max: 1, sent: 1 }, Row::AfterSameWithMax { max: 2, sent: 1 }, Row::AfterSameWithMax { max: 2, sent: 2 }, Row::AfterSameWithMax { max: 1, sent: 2 }, Row::AfterOffOtherOn { bcast: false, max: 0 }, Row::AfterOffOtherOn { bcast: true, max: 0 }, Row::AfterOffOtherOn { bcast: false, max: 4 }, Row::AfterSameThenStrays, Row::AfterSameThenExtOther { frag: false }, Row::AfterSameThenExtOther { frag: true }] } else { vec![Row::Plain(true), Row::Plain(false)] };
         for (ri, &row) in rows.iter().enumerate() {
             for lw in [l.wire_len(), 0] {
                 let size = 4 + lw + p;
